@@ -12,6 +12,7 @@
 -/
 import BVM.Proofs.Saved
 import BVM.Proofs.RtSimp
+import BVM.Proofs.RtCount
 namespace BVM
 
 /-- the end of packet header + packet context written from bit 0 (unbounded arithmetic) -/
@@ -33,6 +34,59 @@ structure CfgOK (A : Nat) (cfg : Cfg) (d : DST) : Prop where
   recs : ∀ e ∈ d.erts, RecordOK A d e
   Apos : 0 < A
 
+/-! ### where the records of the current packet end -/
+
+/-- the end of the newest record of the current packet, or the beginning of the packet content when it has none
+    (`opened`/`recDone` are the ghost events logged when the opening function finishes and when a record has been
+    serialised) -/
+def hw : List Ev → Nat
+  | [] => 0
+  | .opened oc :: _ => oc
+  | .recDone _ _ e :: _ => e
+  | _ :: l => hw l
+
+/-- every record begins at or after the end of the previous record of its packet — or after the packet context when it
+    is the first — ends at or after its beginning, and ends inside the first `M` bits -/
+def ChainOK (M : Nat) : List Ev → Prop
+  | [] => True
+  | .recDone _ s e :: l => hw l ≤ s ∧ s ≤ e ∧ e ≤ M ∧ ChainOK M l
+  | .opened oc :: l => oc ≤ M ∧ ChainOK M l
+  | _ :: l => ChainOK M l
+
+/-- an event that is neither an opening nor a record -/
+def Neutral (e : Ev) : Prop := (∀ l, hw (e :: l) = hw l) ∧ (∀ M l, ChainOK M (e :: l) = ChainOK M l)
+
+theorem PQuiet.neutral (e : Ev) (h : PQuiet e) : Neutral e := by
+  cases e <;> first | exact ⟨fun _ => rfl, fun _ _ => rfl⟩ | exact absurd h (by simp [PQuiet])
+
+theorem neutral_append (new old : List Ev) (h : ∀ e ∈ new, Neutral e) (M : Nat) :
+    hw (new ++ old) = hw old ∧ (ChainOK M (new ++ old) = ChainOK M old) := by
+  induction new with
+  | nil => exact ⟨rfl, rfl⟩
+  | cons e es ih =>
+    obtain ⟨i1, i2⟩ := ih (fun x hx => h x (by simp [hx]))
+    obtain ⟨h1, h2⟩ := h e (by simp)
+    exact ⟨by rw [List.cons_append, h1, i1], by rw [List.cons_append, h2, i2]⟩
+
+theorem Ext.hw {s s' : St} (h : Ext Neutral s s') : hw s'.log = hw s.log := by
+  obtain ⟨new, e, p⟩ := h
+  rw [e]; exact (neutral_append new s.log p 0).1
+
+theorem Ext.chain {s s' : St} (h : Ext Neutral s s') (M : Nat) : ChainOK M s'.log = ChainOK M s.log := by
+  obtain ⟨new, e, p⟩ := h
+  rw [e]; exact (neutral_append new s.log p M).2
+
+/-- what `ChainOK` says of one record of the log: it begins at or after the end of whatever its packet held before it
+    (`hw` of the older part of the log: the previous record's end, or the end of the packet context), and ends inside
+    the first `M` bits -/
+theorem ChainOK.record {M : Nat} : ∀ (pre : List Ev) (n : String) (a b : Nat) (rest : List Ev),
+    ChainOK M (pre ++ Ev.recDone n a b :: rest) → hw rest ≤ a ∧ a ≤ b ∧ b ≤ M
+  | [], _, _, _, _, h => ⟨h.1, h.2.1, h.2.2.1⟩
+  | e :: pre, n, a, b, rest, h => by
+    have ih := ChainOK.record (M := M) pre n a b rest
+    rw [List.cons_append] at h
+    cases e <;> simp only [ChainOK] at h <;> first | exact ih h | exact ih h.2 | exact ih h.2.2.2
+
 structure PInv (d : DST) (L : Nat) (oa : List Args) (s : St) : Prop where
   nh : s.halted = false
   len : s.buf.length = L
@@ -43,6 +97,8 @@ structure PInv (d : DST) (L : Nat) (oa : List Args) (s : St) : Prop where
   sb : ∀ x ∈ s.p.setBufs, x.2 = L
   oc : s.c.packetIsOpen = true → s.c.offContent ≤ s.c.at_
   cz : s.c.contentSize ≤ 8 * L
+  hwle : hw s.log ≤ s.c.at_
+  chain : ChainOK (8 * L) s.log
 
 /-- what the invariant looks at is unchanged -/
 structure PSame (s s' : St) : Prop where
@@ -56,46 +112,61 @@ structure PSame (s s' : St) : Prop where
   sb : s'.p.setBufs = s.p.setBufs
   offc : s'.c.offContent = s.c.offContent
   csz : s'.c.contentSize = s.c.contentSize
+  ext : Ext Neutral s s'
 
-theorem PSame.refl (s : St) : PSame s s := ⟨rfl, rfl, rfl, rfl, rfl, rfl, rfl, rfl, rfl, rfl⟩
+theorem PSame.refl (s : St) : PSame s s := ⟨rfl, rfl, rfl, rfl, rfl, rfl, rfl, rfl, rfl, rfl, Ext.refl _ _⟩
 theorem PSame.trans {a b c : St} (h₁ : PSame a b) (h₂ : PSame b c) : PSame a c :=
   ⟨h₂.nh.trans h₁.nh, h₂.len.trans h₁.len, h₂.pkt.trans h₁.pkt, h₂.at_.trans h₁.at_, h₂.saved.trans h₁.saved,
-   h₂.isOpen.trans h₁.isOpen, h₂.oa.trans h₁.oa, h₂.sb.trans h₁.sb, h₂.offc.trans h₁.offc, h₂.csz.trans h₁.csz⟩
+   h₂.isOpen.trans h₁.isOpen, h₂.oa.trans h₁.oa, h₂.sb.trans h₁.sb, h₂.offc.trans h₁.offc, h₂.csz.trans h₁.csz,
+   h₁.ext.trans h₂.ext⟩
 
 theorem PSame.inv {d : DST} {L : Nat} {oa : List Args} {s s' : St} (h : PSame s s') (hi : PInv d L oa s) :
     PInv d L oa s' :=
   ⟨h.nh.trans hi.nh, h.len.trans hi.len, h.pkt.trans hi.pkt, by rw [h.at_]; exact hi.at_,
    by rw [h.isOpen, h.saved]; exact hi.sv, h.oa.trans hi.oa, by rw [h.sb]; exact hi.sb,
-   by rw [h.isOpen, h.offc, h.at_]; exact hi.oc, by rw [h.csz]; exact hi.cz⟩
+   by rw [h.isOpen, h.offc, h.at_]; exact hi.oc, by rw [h.csz]; exact hi.cz,
+   by rw [h.ext.hw, h.at_]; exact hi.hwle, by rw [h.ext.chain]; exact hi.chain⟩
 
-theorem PSame.ev (s : St) (e : Ev) : PSame s (s.ev e) := ⟨rfl, rfl, rfl, rfl, rfl, rfl, rfl, rfl, rfl, rfl⟩
-theorem PSame.setFlag (s : St) (b : Bool) : PSame s (s.setFlag b) := ⟨rfl, rfl, rfl, rfl, rfl, rfl, rfl, rfl, rfl, rfl⟩
-theorem PSame.setEnabled (s : St) (b : Bool) : PSame s (s.setEnabled b) := ⟨rfl, rfl, rfl, rfl, rfl, rfl, rfl, rfl, rfl, rfl⟩
-theorem PSame.setUseCur (s : St) (b : Bool) : PSame s (s.setUseCur b) := ⟨rfl, rfl, rfl, rfl, rfl, rfl, rfl, rfl, rfl, rfl⟩
-theorem PSame.setCurTs (s : St) (v : Nat) : PSame s (s.setCurTs v) := ⟨rfl, rfl, rfl, rfl, rfl, rfl, rfl, rfl, rfl, rfl⟩
-theorem PSame.setDiscarded (s : St) (v : Nat) : PSame s (s.setDiscarded v) := ⟨rfl, rfl, rfl, rfl, rfl, rfl, rfl, rfl, rfl, rfl⟩
-theorem PSame.setSeqNum (s : St) (v : Nat) : PSame s (s.setSeqNum v) := ⟨rfl, rfl, rfl, rfl, rfl, rfl, rfl, rfl, rfl, rfl⟩
-theorem PSame.bumpOpen (s : St) : PSame s s.bumpOpen := ⟨rfl, rfl, rfl, rfl, rfl, rfl, rfl, rfl, rfl, rfl⟩
-theorem PSame.bumpClose (s : St) : PSame s s.bumpClose := ⟨rfl, rfl, rfl, rfl, rfl, rfl, rfl, rfl, rfl, rfl⟩
+theorem PSame.ev (s : St) (e : Ev) (h : Neutral e := by exact ⟨fun _ => rfl, fun _ _ => rfl⟩) : PSame s (s.ev e) :=
+  ⟨rfl, rfl, rfl, rfl, rfl, rfl, rfl, rfl, rfl, rfl, Ext.ev s e h⟩
+theorem PSame.setFlag (s : St) (b : Bool) : PSame s (s.setFlag b) :=
+  ⟨rfl, rfl, rfl, rfl, rfl, rfl, rfl, rfl, rfl, rfl, Ext.of_log_eq rfl⟩
+theorem PSame.setEnabled (s : St) (b : Bool) : PSame s (s.setEnabled b) :=
+  ⟨rfl, rfl, rfl, rfl, rfl, rfl, rfl, rfl, rfl, rfl, Ext.of_log_eq rfl⟩
+theorem PSame.setUseCur (s : St) (b : Bool) : PSame s (s.setUseCur b) :=
+  ⟨rfl, rfl, rfl, rfl, rfl, rfl, rfl, rfl, rfl, rfl, Ext.of_log_eq rfl⟩
+theorem PSame.setCurTs (s : St) (v : Nat) : PSame s (s.setCurTs v) :=
+  ⟨rfl, rfl, rfl, rfl, rfl, rfl, rfl, rfl, rfl, rfl, Ext.of_log_eq rfl⟩
+theorem PSame.setDiscarded (s : St) (v : Nat) : PSame s (s.setDiscarded v) :=
+  ⟨rfl, rfl, rfl, rfl, rfl, rfl, rfl, rfl, rfl, rfl, Ext.of_log_eq rfl⟩
+theorem PSame.setSeqNum (s : St) (v : Nat) : PSame s (s.setSeqNum v) :=
+  ⟨rfl, rfl, rfl, rfl, rfl, rfl, rfl, rfl, rfl, rfl, Ext.of_log_eq rfl⟩
+theorem PSame.bumpOpen (s : St) : PSame s s.bumpOpen :=
+  ⟨rfl, rfl, rfl, rfl, rfl, rfl, rfl, rfl, rfl, rfl, Ext.of_log_eq rfl⟩
+theorem PSame.bumpClose (s : St) : PSame s s.bumpClose :=
+  ⟨rfl, rfl, rfl, rfl, rfl, rfl, rfl, rfl, rfl, rfl, Ext.of_log_eq rfl⟩
 
 theorem cbEnter_psame (k : CbKind) (s : St) : PSame s (cbEnter k s) := by
-  unfold cbEnter
-  simp only
-  split <;> exact ⟨rfl, rfl, rfl, rfl, rfl, rfl, rfl, rfl, rfl, rfl⟩
+  have hx := (cbEnter_same k s).ext.mono PQuiet.neutral
+  unfold cbEnter at hx ⊢
+  simp only at hx ⊢
+  split at hx <;> exact ⟨rfl, rfl, rfl, rfl, rfl, rfl, rfl, rfl, rfl, rfl, hx⟩
 
 theorem cbClock_psame (clk : Clock) (s : St) : PSame s (cbClock clk s).2 := by
   have h1 := cbEnter_psame .clock s
   unfold cbClock
   simp only
   generalize cbEnter .clock s = s1 at h1
-  exact h1.trans ⟨rfl, rfl, rfl, rfl, rfl, rfl, rfl, rfl, rfl, rfl⟩
+  refine h1.trans ⟨rfl, rfl, rfl, rfl, rfl, rfl, rfl, rfl, rfl, rfl, ⟨[_, _], rfl, ?_⟩⟩
+  intro e he; simp at he; rcases he with he | he <;> subst he <;> exact ⟨fun _ => rfl, fun _ _ => rfl⟩
 
 theorem cbFull_psame (s : St) : PSame s (cbFull s).2 := by
   have h1 := cbEnter_psame .full s
   unfold cbFull
   simp only
   generalize cbEnter .full s = s1 at h1
-  exact h1.trans ⟨rfl, rfl, rfl, rfl, rfl, rfl, rfl, rfl, rfl, rfl⟩
+  refine h1.trans ⟨rfl, rfl, rfl, rfl, rfl, rfl, rfl, rfl, rfl, rfl, ⟨[_, _], rfl, ?_⟩⟩
+  intro e he; simp at he; rcases he with he | he <;> subst he <;> exact ⟨fun _ => rfl, fun _ _ => rfl⟩
 
 theorem preambleTs_psame (d : DST) (ft : Option Scalar) (s : St) : PSame s (preambleTs d ft s).2 := by
   unfold preambleTs
@@ -111,7 +182,8 @@ theorem traceClock_psame (d : DST) (s : St) : PSame s (traceClock d s) := by
   · exact (cbClock_psame _ s).trans (PSame.setCurTs _ _)
   · exact PSame.refl s
 
-theorem noSpace_psame (cf : Bool) (s : St) : PSame s (noSpace cf s).2 := ⟨rfl, rfl, rfl, rfl, rfl, rfl, rfl, rfl, rfl, rfl⟩
+theorem noSpace_psame (cf : Bool) (s : St) : PSame s (noSpace cf s).2 :=
+  ⟨rfl, rfl, rfl, rfl, rfl, rfl, rfl, rfl, rfl, rfl, ⟨[_], rfl, by intro e he; simp at he; subst he; exact ⟨fun _ => rfl, fun _ _ => rfl⟩⟩⟩
 
 /-! ### a serialisation pass that stays inside the buffer -/
 
@@ -159,36 +231,39 @@ theorem openWrite_pinv (args : Args) (hargs : args ∈ openArgsOf oa) (ts : Nat)
     (fun st => serRoot env "pc" d.pcOp args (serRoot env "ph" (DST.phOp cfg) [] st)) (s.setAt 0) hi.nh hpc.1
   simp only at hr
   obtain ⟨r1, r2, r3, r4, r5, r6, r7, r8, r9, r10⟩ := hr
-  have h2 : PInv d L oa (runSer (fun st => serRoot env "pc" d.pcOp args (serRoot env "ph" (DST.phOp cfg) [] st))
-      (s.setAt 0)) := by
-    refine ⟨r1, ?_, ?_, ?_, ?_, ?_, ?_, ?_, ?_⟩
-    rotate_left 6
-    · intro ho; rw [r6] at ho; exact absurd (ho.symm.trans hclosed) (by simp)
-    · rw [r9]; exact hi.cz
-    · rw [r3]; exact hpc.2.2
-    · rw [r4]; exact hi.pkt
-    · rw [r2]
-      have hle : (serRoot env "pc" (buildRoot specPC d.pcStruct) args
-          (serRoot env "ph" (buildRoot specPH cfg.phStruct) []
-            { buf := s.buf, at_ := 0, saved := s.c.saved, stores := [], oob := false, leaves := [] })).at_ ≤ 8 * L := by
-        rw [hpc.2.1, hph.2.1]; exact hfit
-      exact hle
-    · intro _; rw [r5]; exact hsv
-    · rw [r7]; exact hi.oa
-    · rw [r7]; exact hi.sb
+  have hx : Ext Neutral s (runSer (fun st => serRoot env "pc" d.pcOp args (serRoot env "ph" (DST.phOp cfg) [] st))
+      (s.setAt 0)) :=
+    (Ext.of_log_eq rfl : Ext Neutral s (s.setAt 0)).trans ((runSer_same _ (s.setAt 0)).ext.mono PQuiet.neutral)
+  have hlen2 : (runSer (fun st => serRoot env "pc" d.pcOp args (serRoot env "ph" (DST.phOp cfg) [] st))
+      (s.setAt 0)).buf.length = L := by rw [r3]; exact hpc.2.2
+  have hat2 : (runSer (fun st => serRoot env "pc" d.pcOp args (serRoot env "ph" (DST.phOp cfg) [] st))
+      (s.setAt 0)).c.at_ ≤ 8 * L := by
+    rw [r2]
+    have hle : (serRoot env "pc" (buildRoot specPC d.pcStruct) args
+        (serRoot env "ph" (buildRoot specPH cfg.phStruct) []
+          { buf := s.buf, at_ := 0, saved := s.c.saved, stores := [], oob := false, leaves := [] })).at_ ≤ 8 * L := by
+      rw [hpc.2.1, hph.2.1]; exact hfit
+    exact hle
   have hsv2 : SavedOK d.pcOp.members (runSer (fun st => serRoot env "pc" d.pcOp args
       (serRoot env "ph" (DST.phOp cfg) [] st)) (s.setAt 0)).c.saved (8 * L) := by rw [r5]; exact hsv
-  generalize runSer _ (s.setAt 0) = s2 at h2 hsv2
-  split
-  · exact h2
-  · have h4 : PSame s2 (if d.feat.tsBegin.isSome = true then s2.ev (.tsWrite "begin" ts) else s2) := by
-      split
-      · exact PSame.ev _ _
-      · exact PSame.refl _
-    generalize (if d.feat.tsBegin.isSome = true then s2.ev (.tsWrite "begin" ts) else s2) = s3 at h4
-    have h5 := h4.inv h2
-    exact ⟨h5.nh, h5.len, h5.pkt, h5.at_, fun _ => by show SavedOK _ s3.c.saved _; rw [h4.saved]; exact hsv2,
-      h5.oa, h5.sb, fun _ => Nat.le_refl _, h5.cz⟩
+  generalize runSer _ (s.setAt 0) = s2 at r1 r4 r7 r9 hx hlen2 hat2 hsv2
+  rw [if_neg (by rw [r1]; simp)]
+  have h4 : PSame s2 (if d.feat.tsBegin.isSome = true then s2.ev (.tsWrite "begin" ts) else s2) := by
+    split
+    · exact PSame.ev _ _
+    · exact PSame.refl _
+  generalize (if d.feat.tsBegin.isSome = true then s2.ev (.tsWrite "begin" ts) else s2) = s3 at h4
+  have hx3 : Ext Neutral s s3 := hx.trans h4.ext
+  refine ⟨h4.nh.trans r1, h4.len.trans hlen2, ?_, ?_, ?_, ?_, ?_, fun _ => Nat.le_refl _, ?_, ?_, ?_⟩
+  · show s3.c.packetSize = 8 * L; rw [h4.pkt, r4]; exact hi.pkt
+  · show s3.c.at_ ≤ 8 * L; rw [h4.at_]; exact hat2
+  · intro _; show SavedOK _ s3.c.saved _; rw [h4.saved]; exact hsv2
+  · show s3.p.openArgs = oa; rw [h4.oa, r7]; exact hi.oa
+  · show ∀ x ∈ s3.p.setBufs, _; rw [h4.sb, r7]; exact hi.sb
+  · show s3.c.contentSize ≤ 8 * L; rw [h4.csz, r9]; exact hi.cz
+  · show hw (Ev.opened s3.c.at_ :: s3.log) ≤ s3.c.at_; exact Nat.le_refl _
+  · show ChainOK (8 * L) (Ev.opened s3.c.at_ :: s3.log)
+    exact ⟨by rw [h4.at_]; exact hat2, by rw [hx3.chain]; exact hi.chain⟩
 
 include hcfg hsmall hhdr in
 theorem openGuarded_pinv (args : Args) (hargs : args ∈ openArgsOf oa) (ts : Nat) (s : St) (hi : PInv d L oa s) :
@@ -384,13 +459,35 @@ theorem closeWrite_closed (P : Plat → Prop) (E : Bool) (ts : Nat) (saved : Boo
     (closeBacks_pinv cfg d L A hcfg hsmall P E ts (s.setContentSize s.c.at_)
       ⟨hnh, hlen, hpkt, hat, hsv, hat, ho, hp, hen⟩)
 
+theorem closeFinish_neutral (d : DST) (ts : Nat) (saved : Bool) (s : St) : Ext Neutral s (closeFinish d ts saved s) := by
+  unfold closeFinish
+  split
+  · exact Ext.refl _ _
+  · simp only
+    have h4 : Ext Neutral s (if d.feat.tsEnd.isSome = true then s.ev (.tsWrite "end" ts) else s) := by
+      split
+      · exact Ext.ev s _ ⟨fun _ => rfl, fun _ _ => rfl⟩
+      · exact Ext.refl _ _
+    generalize (if d.feat.tsEnd.isSome = true then s.ev (.tsWrite "end" ts) else s) = s3 at h4
+    refine h4.trans ?_
+    split <;> exact ⟨[_], rfl, by intro e he; simp at he; subst he; exact ⟨fun _ => rfl, fun _ _ => rfl⟩⟩
+
+/-- the closing function logs no opening and no record -/
+theorem closeWrite_neutral (cfg : Cfg) (d : DST) (ts : Nat) (saved : Bool) (s : St) :
+    Ext Neutral s (closeWrite cfg d ts saved s) := by
+  unfold closeWrite
+  exact ((Ext.of_log_eq rfl : Ext Neutral s (s.setContentSize s.c.at_)).trans
+    ((closeBacks_same cfg d ts _).ext.mono PQuiet.neutral)).trans (closeFinish_neutral d ts saved _)
+
 include hcfg hsmall in
 theorem closeWrite_pinv (ts : Nat) (saved : Bool) (s : St) (hi : PInv d L oa s) (ho : s.c.packetIsOpen = true) :
     PInv d L oa (closeWrite cfg d ts saved s) := by
   have h := closeWrite_closed cfg d L A hcfg hsmall (fun p => p.openArgs = oa ∧ ∀ x ∈ p.setBufs, x.2 = L)
     s.c.isTracingEnabled ts saved s hi.nh hi.len hi.pkt hi.at_ (hi.sv ho) ho ⟨hi.oa, hi.sb⟩ rfl
+  have hx := closeWrite_neutral cfg d ts saved s
   exact ⟨h.nh, h.len, h.pkt, by rw [h.at_]; exact Nat.le_refl _, fun x => by rw [h.isOpen] at x; simp at x, h.pp.1,
-    h.pp.2, fun x => by rw [h.isOpen] at x; simp at x, h.cz⟩
+    h.pp.2, fun x => by rw [h.isOpen] at x; simp at x, h.cz,
+    by rw [hx.hw, h.at_]; exact Nat.le_trans hi.hwle hi.at_, by rw [hx.chain]; exact hi.chain⟩
 
 include hcfg hsmall in
 theorem closeGuarded_pinv (ts : Nat) (s : St) (hi : PInv d L oa s) : PInv d L oa (closeGuarded cfg d ts s) := by
@@ -417,8 +514,8 @@ theorem setBuf_pinv (hA : 0 < A) (s : St) (hi : PInv d L oa s) : PInv d L oa (se
   simp only [hu]
   split
   · exact ⟨hi.nh, by simp, rfl, Nat.le_refl _, hi.sv, hi.oa, hi.sb,
-      fun h => Nat.le_trans (hi.oc h) hi.at_, hi.cz⟩
-  · exact ⟨hi.nh, by simp, rfl, hi.at_, hi.sv, hi.oa, hi.sb, hi.oc, hi.cz⟩
+      fun h => Nat.le_trans (hi.oc h) hi.at_, hi.cz, Nat.le_trans hi.hwle hi.at_, hi.chain⟩
+  · exact ⟨hi.nh, by simp, rfl, hi.at_, hi.sv, hi.oa, hi.sb, hi.oc, hi.cz, hi.hwle, hi.chain⟩
 
 include hsmall in
 theorem deliverAndSwap_pinv (hA : 0 < A) (wasOpen : Bool) (n : Nat) (s : St) (hi : PInv d L oa s) :
@@ -539,13 +636,19 @@ theorem traceWrite_pinv (e : ERT) (he : e ∈ d.erts) (args : Args) (hargs : Arg
       { buf := s.buf, at_ := s.c.at_, saved := s.c.saved, stores := [], oob := false, leaves := [] }
       s.buf.length hp.small rfl rfl (by have := hp.pkt; have := hp.at_; show recordEndN d e args s.c.at_ ≤ _; omega)
     rw [hrb.2.1]; exact hle
+  have hx : Ext Neutral s (runSer (serRecord (serEnvOf cfg d e.id s.c.curLastEventTs s.c) d e args) s) :=
+    (runSer_same _ s).ext.mono PQuiet.neutral
+  have hge1 : s.c.at_ ≤ (runSer (serRecord (serEnvOf cfg d e.id s.c.curLastEventTs s.c) d e args) s).c.at_ := by
+    rw [r2]; exact hge
   have h1 : PInv d L oa (runSer (serRecord (serEnvOf cfg d e.id s.c.curLastEventTs s.c) d e args) s) := by
-    refine ⟨r1, ?_, ?_, ?_, ?_, ?_, ?_, ?_, ?_⟩
+    refine ⟨r1, ?_, ?_, ?_, ?_, ?_, ?_, ?_, ?_, ?_, ?_⟩
     rotate_left 6
     · intro ho
       rw [r8, r2]
       exact Nat.le_trans (hi.oc (by rw [← r6]; exact ho)) hge
     · rw [r9]; exact hi.cz
+    · rw [hx.hw]; exact Nat.le_trans hi.hwle hge1
+    · rw [hx.chain]; exact hi.chain
     · rw [r3, hin.2.2]; exact hi.len
     · rw [r4]; exact hi.pkt
     · rw [r2]
@@ -557,7 +660,7 @@ theorem traceWrite_pinv (e : ERT) (he : e ∈ d.erts) (args : Args) (hargs : Arg
       exact hi.sv (by rw [← r6]; exact ho)
     · rw [r7]; exact hi.oa
     · rw [r7]; exact hi.sb
-  generalize runSer _ s = s1 at h1
+  generalize runSer _ s = s1 at h1 hx hge1
   split
   · exact h1
   · have h3 : PSame s1 (if d.feat.erTs.isSome = true then s1.ev (.tsWrite "rec" s1.c.curLastEventTs) else s1) := by
@@ -565,7 +668,12 @@ theorem traceWrite_pinv (e : ERT) (he : e ∈ d.erts) (args : Args) (hargs : Arg
       · exact PSame.ev _ _
       · exact PSame.refl _
     generalize (if d.feat.erTs.isSome = true then s1.ev (.tsWrite "rec" s1.c.curLastEventTs) else s1) = s2 at h3
-    have h4 := commit_pinv cfg d L A oa hcfg hsmall _ ((PSame.ev s2 (.recDone e.name s.c.at_ s2.c.at_)).inv (h3.inv h1))
+    have h2i := h3.inv h1
+    -- the record just serialised occupies `[at before, at now)`: after everything logged for this packet so far
+    have hrec : PInv d L oa (s2.ev (.recDone e.name s.c.at_ s2.c.at_)) :=
+      ⟨h2i.nh, h2i.len, h2i.pkt, h2i.at_, h2i.sv, h2i.oa, h2i.sb, h2i.oc, h2i.cz, Nat.le_refl _,
+        ⟨by rw [h3.ext.hw, hx.hw]; exact hi.hwle, by rw [h3.at_]; exact hge1, h2i.at_, h2i.chain⟩⟩
+    have h4 := commit_pinv cfg d L A oa hcfg hsmall _ hrec
     split
     · exact h4
     · exact (PSame.setFlag _ false).inv h4
@@ -668,7 +776,7 @@ theorem rtInit_pinv (d : DST) (L A : Nat) (hA : 0 < A) (hsmall : 8 * L + A ≤ 2
     PInv d L p.openArgs (rtInit L p) := by
   have hu : u32 (L * 8) = 8 * L := by simp only [u32]; omega
   refine ⟨rfl, by simp [rtInit], ?_, Nat.zero_le _, fun h => by simp [rtInit] at h, rfl, hsb,
-    fun h => by simp [rtInit] at h, Nat.zero_le _⟩
+    fun h => by simp [rtInit] at h, Nat.zero_le _, Nat.le_refl _, trivial⟩
   show u32 (L * 8) = 8 * L
   exact hu
 
